@@ -681,6 +681,9 @@ func (x *Exec) loop(opt Options) {
 func (x *Exec) finish(horizon bool) {
 	ps := x.snapshot()
 	for _, p := range ps {
+		if p.dom.Dead.Load() || p.dom.Frozen.Load() {
+			continue // goroutines of a crashed / stopped process are not "blocked", they are gone
+		}
 		st := "parked"
 		if !x.enabled(p) {
 			st = "disabled"
